@@ -39,6 +39,7 @@ type VerifyRec struct {
 	Stamps [4]uint64
 	Failed bool
 	Task   string
+	FP     string // rendering at the time of the call
 }
 
 type CBRec struct {
@@ -184,6 +185,7 @@ type Run struct {
 	clients           int
 	finished          int
 	maxQueue          int
+	qcap              int
 	queueOffset       int
 	queueSeries       []queuePoint
 	cbSeen            int
@@ -219,7 +221,7 @@ func (r *Run) fail(oracle, format string, a ...any) {
 }
 
 func (r *Run) onVerify(c *CfgCore, err error) {
-	r.verifies = append(r.verifies, VerifyRec{Step: r.sim.Step(), Ptr: c, Stamps: c.stamps(), Failed: err != nil})
+	r.verifies = append(r.verifies, VerifyRec{Step: r.sim.Step(), Ptr: c, Stamps: c.stamps(), Failed: err != nil, FP: render(c)})
 }
 
 // ---- sources ----
@@ -712,7 +714,7 @@ func (r *Run) enabler(c *ClientSpec) {
 			simrt.Sleep(time.Duration(op.D))
 		case "await-backlog":
 			// enable behind a backlog of callback events (or once everybody else is done)
-			simrt.YieldWhen("await-backlog", func() bool { return r.queueNow() > 64 || r.finished >= r.clients-1 })
+			simrt.YieldWhen("await-backlog", func() bool { return r.queueNow() > r.queueCap() || r.finished >= r.clients-1 })
 		case "enable":
 			rec := r.begin(c, i, op)
 			ctx, cancel := r.opCtx(op, rec)
@@ -722,7 +724,7 @@ func (r *Run) enabler(c *ClientSpec) {
 			rec.Ok = err == nil
 			r.end(rec, err)
 			cancel()
-			if err == nil && r.queueNow() > 64 {
+			if err == nil && r.queueNow() > r.queueCap() {
 				r.probe("enable-succeeded-behind-a-full-callback-queue")
 			}
 		}
